@@ -67,7 +67,7 @@ package absnfs
 
 // record-marked connection I/O is the composition of the codecs proved under C13
 //@ func recordMarkingConnIO.ReadCall
-//@ prop C28 C15
+//@ prop C28 C15:safety
 //@ requires rm != nil && rm.rmConn != nil && rm.rmConn.reader != nil && rm.rmConn.reader.fragmentBuf != nil && rm.rmConn.reader.MaxRecordSize <= 1073741824
 //@ ensures [call-or-error] isnil(result2) ==> result0 != nil && !isnil(result1)
 // the body reader handed to the procedure handler holds exactly the bytes of the record after the call header
